@@ -6,7 +6,9 @@ evaluation order; scope rules; control flow; canonical errors), using PyArith / 
  TLC: GenExpr (every expression to the depth bound in a fixed environment), GenProg (statement
  programs built by a frame machine), GenData (models, enums, Option / Result, match, `?`) and GenCtl
  (if / elif / else and statement-level match chains with effectful conditions and one jump, inside every
- loop context) enumerate / simulate programs; `Sound` (an accepted program never
+ loop context), GenColl (strings, collections, comprehensions, closures, f-strings, tuples), GenObj (methods,
+ mut self, field assignment, traits, inheritance) and GenDiv (the division family through every target form)
+ enumerate / simulate programs; `Sound` (an accepted program never
  gets stuck) is checked on every generated program; each case is printed with Run(p) and feature tags.
 Binding:
  B1  render -> self-check (parse(render(t)) == t) -> real `incan build` (batched) -> run -> stdout
@@ -65,6 +67,8 @@ def run(ctx):
         common.require_tlc_ok(ctx, gc, "GenCtl / Sound")
         go = common.tlc(ctx, "GenColl", cfg="GenColl_2", workers=8, timeout=6000)
         common.require_tlc_ok(ctx, go, "GenColl / Sound")
+        gv = common.tlc(ctx, "GenDiv", cfg="GenDiv", workers=4, timeout=900)
+        common.require_tlc_ok(ctx, gv, "GenDiv / OnlyZeroDivision")
         gj = common.tlc(ctx, "GenObj", cfg="GenObj_2", workers=8, timeout=6000, want_tags=("CASE", "DECLS"))
         common.require_tlc_ok(ctx, gj, "GenObj / Sound")
         gj_sim = _uniq(common.tlc(ctx, "GenObj", cfg="GenObj_sim", workers=1, timeout=1500, simulate=400, depth=6)["cases"]["CASE"]) if not ctx.quick else []
@@ -83,7 +87,7 @@ def run(ctx):
             return list(rows)
         buckets = {}
         for r in rows:
-            key = tuple(sorted(t for t in r["feats"] if t.startswith(("bin:", "un:", "call:", "index:", "slice-shape:", "stmt:", "grp:", "match:", "pat:", "arm:", "data:", "subject:", "ctl:", "ctx:", "jump", "cond:", "matchform:", "coll:", "m:", "f:", "listcomp", "dictcomp", "closure", "setidx:", "n:fstr", "n:tuple", "n:tfield", "obj", "n:setfield", "n:ctord"))))
+            key = tuple(sorted(t for t in r["feats"] if t.startswith(("bin:", "un:", "call:", "index:", "slice-shape:", "stmt:", "grp:", "match:", "pat:", "arm:", "data:", "subject:", "ctl:", "ctx:", "jump", "cond:", "matchform:", "coll:", "m:", "f:", "listcomp", "dictcomp", "closure", "setidx:", "n:fstr", "n:tuple", "n:tfield", "obj", "n:setfield", "n:ctord", "div:", "target:", "lhs:", "rhs:"))))
             buckets.setdefault(key, []).append(r)
         keys = sorted(buckets)
         rnd.shuffle(keys)
@@ -111,6 +115,9 @@ def run(ctx):
     cases += [pipeline.data_case(r, k) for k, r in enumerate(pick(drows, 110 if ctx.quick else 1396))]
     cases += [pipeline.prog_case(r, k, prefix="s") for k, r in enumerate(uniq_sim[:n_sim])]
     cases += [pipeline.ctl_case(r, k) for k, r in enumerate(pick(crows, 300 if ctx.quick else 2500) + gc_sim)]
+    vrows = gv["cases"]["CASE"]
+    universe += len(vrows)
+    cases += [pipeline.div_case(r, k) for k, r in enumerate(pick(vrows, 70 if ctx.quick else len(vrows)))]
     orows = go["cases"]["CASE"]
     universe += len(orows)
     jrows = gj["cases"]["CASE"]
@@ -119,7 +126,7 @@ def run(ctx):
     cases += [pipeline.coll_case(r, k) for k, r in enumerate(pick(orows, 220 if ctx.quick else 2000) + go_sim)]
     with ctx.timed("self_check"):
         rej = pipeline.self_check_exprs(ctx, [c for c in cases if c["kind"] == "expr"])
-        rej.update(pipeline.self_check_progs(ctx, [c for c in cases if c["kind"] in ("prog", "coll", "obj")]))
+        rej.update(pipeline.self_check_progs(ctx, [c for c in cases if c["kind"] in ("prog", "coll", "obj", "div")]))
         rej.update(pipeline.self_check_data(ctx, [c for c in cases if c["kind"] == "data"]))
         rej.update(pipeline.self_check_ctl(ctx, [c for c in cases if c["kind"] == "ctl"]))
     for cid, err in rej.items():
@@ -133,7 +140,7 @@ def run(ctx):
     for c, e in zip(cases, ev):
         sym = e["symptom"]
         stats[e["stage"] + (":" + sym if sym else ":ok")] = stats.get(e["stage"] + (":" + sym if sym else ":ok"), 0) + 1
-        src = " ; ".join(c["body"][-4:]) if c["kind"] in ("prog", "data") else (c["decls"] if c["kind"] == "ctl" else ("\n".join(c["body"]) if c["kind"] in ("coll", "obj") else c["body"][-1]))
+        src = " ; ".join(c["body"][-4:]) if c["kind"] in ("prog", "data") else (c["decls"] if c["kind"] == "ctl" else ("\n".join(c["body"]) if c["kind"] in ("coll", "obj", "div") else c["body"][-1]))
         if e["stage"] in ("ran", "abort"):
             n_ran += 1
             distinct.add(src)
